@@ -65,7 +65,15 @@ type c05Op struct {
 
 // c05Run executes a history on a fresh hash and compares every Sum.
 func c05Run(a c05Alg, size int, key []byte, fixedCtor bool, ops []c05Op) error {
-	h, err := c05New(a, size, key, fixedCtor)
+	// the constructor gets the caller's own key buffer, which the caller then reuses
+	// (mode derived from the case, no extra draw): Reset must restore the original key
+	kb := append([]byte{}, key...)
+	h, err := c05New(a, size, kb, fixedCtor)
+	mode := (len(key) + len(ops) + size) % 4
+	clobber(kb, mode)
+	if len(key) > 0 {
+		keyClobbers[clobberNames[mode]]++
+	}
 	if err != nil {
 		return fmt.Errorf("constructor failed for size %d keylen %d: %v", size, len(key), err)
 	}
@@ -89,6 +97,8 @@ func c05Run(a c05Alg, size int, key []byte, fixedCtor bool, ops []c05Op) error {
 	}
 	return nil
 }
+
+var keyClobbers = map[string]int{}
 
 func c05Shape(ops []c05Op) (shape string, mid int) {
 	var sb strings.Builder
@@ -360,6 +370,68 @@ func TestC05(t *testing.T) {
 	}
 	c.Exhaustive(fmt.Sprintf("length 0..%d x size class x key-length class x dispatch variant (whole + split-at-block + reset-reuse)", maxLen), total)
 
+	// size thresholds that may switch code paths: one big Write of 2^12..2^20 (and k*2^16) bytes +- {0,1,bs-1,bs,bs+1},
+	// after a drawn pre-fill of the block buffer (nothing, 1 byte, bs-1 bytes, or the key block), followed by Sum at once,
+	// a small write then Sum, or (thorough) a second write of the same size then Sum
+	{
+		bigSizes := []int{4096, 8192, 16384, 32768, 65536, 131072, 196608, 1 << 20}
+		pool := seqBytes(2<<20 + 4096)
+		nBig := 0
+		for _, a := range []c05Alg{c05B, c05S} {
+			deltas := []int{0, 1, -1, a.bs - 1}
+			tails := []int{0, 1}
+			if ev.Thorough() {
+				deltas = []int{0, 1, -1, a.bs - 1, -(a.bs - 1), a.bs, -a.bs, a.bs + 1, -(a.bs + 1)}
+				tails = []int{0, 1, 2}
+			}
+			for _, S := range bigSizes {
+				for _, d := range deltas {
+					for pi, prefill := range []int{0, 1, a.bs - 1, -1} { // -1: keyed, the key block fills the buffer
+						for _, tail := range tails {
+							item++
+							if !ev.Mine(item) {
+								continue
+							}
+							var key []byte
+							pf := prefill
+							if prefill < 0 {
+								key, pf = seqBytes(a.max), 0
+							}
+							L := S + d
+							msg := pool[:pf+L]
+							ops := []c05Op{{kind: 'w', data: msg[:pf]}, {kind: 'w', data: msg[pf:]}}
+							switch tail {
+							case 1:
+								msg = pool[:pf+L+7]
+								ops = append(ops, c05Op{kind: 'w', data: msg[pf+L:]})
+							case 2:
+								msg = pool[:pf+2*L]
+								ops = append(ops, c05Op{kind: 'w', data: msg[pf+L:]})
+							}
+							ops = append(ops, c05Op{kind: 's', want: a.ref(a.max, key, msg)})
+							for _, v := range a.variants() {
+								restore, _ := a.sel(v)
+								err := c05Run(a, a.max, key, false, ops)
+								restore()
+								if err != nil {
+									what := fmt.Sprintf("%s variant=%s keylen=%d: Write(%d) Write(%d = %d%+d) tail=%d then Sum (message = patterned bytes, %d in all): %v", a.name, v, len(key), pf, L, S, d, tail, len(msg), err)
+									c.Violation(what, "")
+									t.Fatalf("VF-VIOLATION: property=C05 %s", what)
+								}
+								c.Case(true, fmt.Sprintf("big|%s|%s|%d|%d|%d|%d", a.name, v, S, d, pi, tail), "bigwrite:"+a.name+"/"+v)
+								nBig++
+							}
+							c.Class(fmt.Sprintf("bigwrite:size=%d", S))
+							c.Class(fmt.Sprintf("bigwrite:delta=%+d", d))
+							c.Class(fmt.Sprintf("bigwrite:prefill=%s", []string{"0", "1", "bs-1", "key-block"}[pi]))
+						}
+					}
+				}
+			}
+		}
+		c.Exhaustive("single big Write: size {2^12..2^17, 3*2^16, 2^20} + delta x buffer pre-fill {0, 1, bs-1, key block} x tail {Sum, small write, same-size write (thorough)} x dispatch variant", nBig)
+	}
+
 	// concurrency part: one-shot helpers and separate hash objects used from several goroutines at once
 	{
 		failure, calls, ks := concPart("C05", ev.Scale(6000, 40000), func(d *drbg, w int) []concJob {
@@ -409,6 +481,10 @@ func TestC05(t *testing.T) {
 		}
 		c.ClassN("concurrency:calls", calls)
 	}
+	for k, v := range keyClobbers {
+		c.ClassN("key-buffer:"+k, v)
+	}
+	keyClobbers = map[string]int{}
 	flushSumLayouts(c)
 	// third implementation on the generated inputs (judges the reference only)
 	switch n, err := py.run(); {
